@@ -16,11 +16,12 @@ import (
 var keywords = map[string]bool{"not": true, "any": true, "all": true, "in": true, "is": true, "contains": true, "matches": true, "and": true, "or": true, "as": true, "empty": true}
 
 var plainIdent = regexp.MustCompile(`^[a-zA-Z][a-zA-Z0-9_]*$`)
+var bareWord = regexp.MustCompile(`^[a-zA-Z][a-zA-Z0-9_/]*(\.([a-zA-Z][a-zA-Z0-9_/]*|[0-9]+))*$`)
 var ptrSeg = regexp.MustCompile(`^[\pL\pN\-_.~:|]+$`)
 
 var selFirst = []string{"liquid", "costarring", "declinate", "macallums", "altarage", "zinke", "plumless", "buckeroo", "Aa", "BB", "AaAa", "BBBB", "AaBB", "a", "b", "foo", "X", "key", "m", "l", "Name", "x1", "slash/part", "c_d", "notes", "nothing", "anyone", "allow", "inside", "island", "orbit", "android", "matchesx", "containsx", "emptyx", "asx"}
 var selRest = []string{"b", "c", "0", "1", "12", "007", "00", "010", "0x1", "first\nsecond", "a\rb", "tab\there", "m²", "Ⅷ", "二〇二四", "½", "CO₂", "k", "x y", "é", "A", "", "a.b", "a/b", "t~x", "q\"r", "-", "_u", ".", "..", "a/", "/b", "~1", "a~01", "not", "in", ".", ".."}
-var litPool = []string{"", "a", "foo", "1", "-2.5", "0", "x y", "é", "a\"b", "b\\c", "/usr/bin", "/", "/a/", "\n", "\t\x00", "`", "a`b\r", "true", "0x1F", "日本", "\xff\xfe", "not", "in", "10", "-0", "1.50", "a.b", "\U0001F600", "'", "//a", "/a b", "/a~1b", "/x~0y", "/~1", "~1", "/tmp/a~1b~0", "\ufffd", "a\ufffdb", "\u00a0", "a\u3000b", "\u2003x", "\u200b", "\u00ad", "\u2028", "\\", "C:\\dir\\", "a\\", "\\\\", "(", ")", "a)", "(b", "™", "Томск", "• item", "Škoda", "step ①", "\u2060", "\U0001F622", "x\u0122", "\u0160\u0122", "a\x7fb", "\x7f", "\x1f", "\u0080", "\u009f", "\u00a0b", "del\x7f \x7f", "\ufeff", "\U000e0001", "\u0378", "\ud7ff", "\ue000"}
+var litPool = []string{"", "a", "foo", "1", "-2.5", "0", "x y", "é", "a\"b", "b\\c", "/usr/bin", "/", "/a/", "\n", "\t\x00", "`", "a`b\r", "true", "0x1F", "日本", "\xff\xfe", "not", "in", "10", "-0", "1.50", "a.b", "\U0001F600", "'", "//a", "/a b", "/a~1b", "/x~0y", "/~1", "~1", "/tmp/a~1b~0", "\ufffd", "a\ufffdb", "\u00a0", "a\u3000b", "\u2003x", "\u200b", "\u00ad", "\u2028", "\\", "C:\\dir\\", "a\\", "\\\\", "(", ")", "a)", "(b", "™", "Томск", "• item", "Škoda", "step ①", "\u2060", "\U0001F622", "x\u0122", "\u0160\u0122", "a\x7fb", "\x7f", "\x1f", "\u0080", "\u009f", "\u00a0b", "del\x7f \x7f", "\ufeff", "\U000e0001", "\u0378", "\ud7ff", "\ue000", "v1.2", "rack.3", "node.07.dc1", "a.0", "x.00", "a.b.1", "r2.d2", "a.1.b"}
 
 func genSelector(allowPtr bool) grammar.Selector {
 	n := 1 + rng.Intn(3)
@@ -176,6 +177,8 @@ func literalStyles(s string) []string {
 	}
 	if plainIdent.MatchString(s) && !keywords[s] {
 		out = append(out, s)
+	} else if bareWord.MatchString(s) && !keywords[strings.SplitN(s, ".", 2)[0]] {
+		out = append(out, s) // a dotted word: read as a selector, whose rendering is the word itself
 	}
 	if numLit.MatchString(s) {
 		out = append(out, s)
